@@ -295,8 +295,33 @@ def list_hides_only_control(F):
     if sv is None:
         return False, 'serve::serve missing'
     filters, hide = [], False
+    # closures on the way of the map that is SENT (a second chain over the same scan - feeding a cache, a log - filters what it
+    # likes): everything the Fingerprints payload is computed from, through the adaptor calls
+    on_chain = None
+    vfl = flow_of(sv)
+    for bi in vfl.cfg.reachable():
+        for st in sv.blocks[bi]['stmts']:
+            rv = st['rv']
+            if rv['k'] == 'agg' and rv.get('adt') == 'wire::Response' and rv.get('vname') == 'Fingerprints' and rv['ops']:
+                on_chain = set()
+                work, seen_ = [rv['ops'][0]], set()
+                while work and len(seen_) < 300:
+                    cur = work.pop()
+                    if cur['k'] == 'const':
+                        continue
+                    for o in vfl.origins(cur, mut_calls=True):
+                        k_ = (o.kind, str(o.key), o.bb)
+                        if k_ in seen_:
+                            continue
+                        seen_.add(k_)
+                        if o.kind == 'agg' and F.body(str(o.key)) is not None:
+                            on_chain.add(str(o.key))
+                        if o.kind in ('call', 'mutcall') and o.bb is not None:
+                            work += [a for a in sv.blocks[o.bb]['term'].get('args', []) if a['k'] != 'const']
     for sb in F.nested('serve::serve'):
         if sb.kind != 'closure':
+            continue
+        if on_chain is not None and on_chain and sb.path not in on_chain:
             continue
         sfl = flow_of(sb)
         preds = sfl.calls(lambda c: c.endswith('::starts_with') or c.endswith('::contains') or c.endswith('::ends_with')
